@@ -123,8 +123,11 @@ def scenario(ctx, R, rng, content, B, tmo_opt, silence_after, ending, tick_gap):
         resend_times = []
         unacked = dict(st.blocks)
         done_at = None
+        chatter = rng.random() < 0.4       # another endpoint keeps sending to the transfer's port
         for k in range(1, 200000):
             now = t_silence + k * tick_gap
+            if chatter and k % 3 == 0:
+                S.packet(tid, 77, rng.choice([b'\0\4\0\1', b'hello', b'\0\5\0\0x\0', struct.pack('!HH', 4, blk)]), now - 1)
             out = S.tick(tid, now)
             if out:
                 resend_times.append(now)
@@ -168,7 +171,7 @@ def scenario(ctx, R, rng, content, B, tmo_opt, silence_after, ending, tick_gap):
 
 
 def run(ctx, build):
-    R = ctx.runner('Tftp')
+    R = ctx.try_runner('Tftp')
     rng = ctx.rng
     n = 160 if ctx.thorough else 50
     if ctx.widen:
